@@ -1460,8 +1460,8 @@ def ob_gonzalez_energy(dim, nPe, consistent):
 
 def hyper_obligations(prop, tier):
     obs = []
-    for dim, nPe in ((2, 3), (2, 4)):      # (3-D: the rational arithmetic with a six-term denominator does not finish within the budget: left to the B obligations op.gonzalez.*)
-        for consistent in (True, False):
+    for dim, nPe in (((2, 3),) if tier == "quick" else ((2, 3), (2, 4))):      # (3-D: the rational arithmetic with a six-term denominator does not finish within the budget: left to the B obligations op.gonzalez.*)
+        for consistent in ((True,) if tier == "quick" else (True, False)):
             obs.append(Ob(f"{prop}.gp.gonzalez.{dim}d.n{nPe}.{'consistent' if consistent else 'midpoint'}", ob_gonzalez_energy, (dim, nPe, consistent), "P", (f_(NLP, "GonzalezStressTensor"), f_(MUP, "Project_matrix_to_vector")),
                           clause="R == t sum_p wJ B_mid^T (s_mid + alpha dE) with (s_mid + alpha dE) . dE == W_{n+1} - W_n identically, for ANY energies, stresses, kinematic operators and strain increments; all Ne, nPg",
                           timeout=400))
